@@ -237,8 +237,19 @@ def mprob_kind(model):
     return "states"
 
 
+_MODEL_CACHE = {}
+
+
 def make_model(model, **kw):
-    """the real substitution model object"""
+    """the real substitution model object (cached per worker: building a codon model's predicate masks costs ~2 s;
+    a model object is immutable configuration shared by the likelihood functions made from it)"""
+    key = (model, tuple(sorted(kw.items())))
+    if key not in _MODEL_CACHE:
+        _MODEL_CACHE[key] = _make_model(model, **kw)
+    return _MODEL_CACHE[key]
+
+
+def _make_model(model, **kw):
     from cogent3 import get_model
 
     if model in DINUC:
